@@ -83,6 +83,23 @@ def run(rep, tier, seed, replay):
             continue
         reqs.append("L %s %s" % (hexs(i["pattern"]), hexs("(?s)^(?-i:%s)$" % rx_escape(s))))
         idx.append(k)
+    # direct probes through the public API (is_match is an UNANCHORED search that relies on the anchors of the program; the
+    # automata comparison below reads the program as a whole-haystack match): the string itself matches, and the string with
+    # a line, a character or itself added on either side does not
+    probes, powner = [], []
+    for k in idx:
+        s0 = ss[k]
+        for w, want in [(s0, True), (s0 + "\n", False), ("\n" + s0, False), (s0 + "\nx", False), ("x\n" + s0, False), (s0 + "\r\n" + s0, False),
+                        (s0 + s0, s0 == ""), (s0 + "\n" + s0, False), (s0[:-1], s0 == "")]:
+            probes.append("M %s %s" % (hexs(esc[k]), hexs(w)))
+            powner.append((k, w, want))
+    flagged = set()
+    for (k, w, want), line in zip(powner, h.ask(probes)):
+        got = line.startswith("match")
+        if got != want and k not in flagged:
+            flagged.add(k)
+            rep.violation("oracle", "escape_matches_exactly: the escaped string %s" % ("matches another path" if got else "does not match the string"), {"string": ss[k], "escaped": esc[k], "path": w}, impl=got)
+    rep.stats["direct-probes"] += len(probes)
     res = h.ask(reqs)
     for k, line in zip(idx, res):
         s = ss[k]
